@@ -31,7 +31,9 @@ ASSUMPTIONS = ["A3, A4 (pure normpath == C normpath), A5, A7",
 METHODS = ["GET", "PUT", "POST", "DELETE", "MKCOL", "MKCALENDAR", "PROPFIND", "PROPPATCH", "REPORT"]
 SEGS = ["", ".", "..", "user", "calendars", "cal", "a.ics", "x", "...", "other", "srv",
         # segments that still carry escapes after the front end's own decoding (double-encoded targets)
-        "..%2f..%2f..%2f..%2fother%2fy", "%2fsrv%2fother%2fz", "%2e%2e"]
+        "..%2f..%2f..%2f..%2fother%2fy", "%2fsrv%2fother%2fz", "%2e%2e",
+        # siblings whose name starts with the data root's own basename (string-prefix containment tests)
+        "root-old", "rootx"]
 ROOT = mweb.ROOT
 
 
